@@ -146,6 +146,15 @@ Theorem C15_dns_stream_rejects_non_dns : forall peeked accepted csegs bsegs, loc
   dns_model (server_wrap peeked accepted) csegs false bsegs = raw_nothing.
 Proof. exact dns_stream_rejects. Qed.
 
+(* concurrent connections on one service object do not interfere: for every interleaving
+   of the segments of any number of connections, each connection is served as if it were
+   alone (no state is shared between Handle calls; the run projected to one connection is
+   that connection's run) *)
+Theorem C15_concurrent_connections_independent : forall l i k parses reply,
+  dns_model k (arrive_all (fun _ => []) l i) parses reply = dns_model k (own i l) parses reply /\
+  copy_model k (arrive_all (fun _ => []) l i) reply = copy_model k (own i l) reply.
+Proof. exact concurrent_raw_no_interference. Qed.
+
 (* ---- ssh-proxy (message level) ---- *)
 
 (* credentials reach the backend as presented, attempt by attempt, up to and including
@@ -218,3 +227,4 @@ Print Assumptions C15_ssh_auth_forwarded_as_presented.
 Print Assumptions C15_ssh_relay_order.
 Print Assumptions C15_ssh_cross_order_not_kept.
 Print Assumptions C15_ssh_close_delivers_all.
+Print Assumptions C15_concurrent_connections_independent.
